@@ -3,36 +3,68 @@ C18 — reports stay well-formed whatever the names and source text contain.
 
 Property theorems about `GrcovModel/Escape.lean` (the model of quick-xml's `escape`, serde_json's
 string writer and Tera's `escape_html`, and of the readers on the consuming side). Helper lemmas:
-GrcovModel/Lemmas/Escape.lean. All strings are UTF-8 byte lists; every theorem quantifies over ALL
-byte lists (hostile metacharacters, quotes, `]]>`, `&amp;`, non-ASCII, any length). The one guard
-that the property's own quantifier supplies ("no control characters or line terminators") is
-needed in exactly one place: an XML parser reads a literal TAB/LF/CR inside an attribute value as
-a space, and quick-xml's `escape` leaves those three bytes alone (`NoTabNl`).
+GrcovModel/Lemmas/Escape.lean, Lemmas/EscapeAgree.lean. All strings are UTF-8 byte lists.
 
-Status: full strength, including the breadcrumb link of a file page (escaped since /repo ffd66c7,
-`C18_breadcrumb_href`, `C18_breadcrumb_item`: every prefix option, every directory name) and the
-row links of the index pages without a prefix (explicitly relative since /repo 8e4c27e,
-`C18_row_href_relative`). One `…_partial` remains, about configuration rather than names: with
-`--abs-link-prefix P` the directory rows are `P~item` without a separator (index.html 23), so the
-statement "a name cannot change the scheme of a prefixed link" needs `P` to contain a `/` or a `:`
-(any absolute URL or path); it is refuted for `P = java`, directory `script:alert(1)`
-(`C18_prefixed_links_scheme_false`).
+Quantifiers. The property quantifies over "strings of printable Unicode characters (no control
+characters or line terminators)" with XML/HTML metacharacters, quotes and non-ASCII characters.
+* The statements about what the WRITERS emit (`…_no_meta`, `…_amp`, `…_roundtrip` through the pure
+  entity resolver `unescapeEnt`, everything about JSON) hold for ALL byte lists, control characters
+  included, and are stated so.
+* The statements about what a READER gets back (`…_scan`, the HTML sinks) carry the property's own
+  guard, because they are false without it:
+  - XML (`scanAttr`, `scanXmlText` – a conforming XML 1.0 parser; the same functions as the expat-tied
+    `Writers.CobBytes.readAttrValue` / `readText`: `C18_readers_agree`): quick-xml's `escape` copies
+    control characters, and a conforming parser reads a literal TAB / LF / CR / CR LF inside an
+    attribute value as ONE blank, a CR or CR LF in character data as LF, and rejects every other
+    C0 control and U+FFFE / U+FFFF (the document is not well-formed). Guard `printable` for
+    attribute values (= `CobBytes.attrOk`), `textSafe` for character data (= `CobBytes.textOk`:
+    TAB and LF allowed). Closed witnesses: `C18_xml_controls_outside`, `C18_xml_scan_any_false`.
+  - HTML (`scanHtmlText`, `scanHtmlAttr`): the input-stream preprocessing reads CR / CR LF as LF.
+    Guard `noCtl` (no C0 control byte; implied by `printable`). Witness: `C18_html_cr_outside`.
+  DEL, the C1 controls and U+2028/2029 are outside the property's quantifier as well, but every
+  reader returns them unchanged, so the guards need not exclude them.
+
+HTML sinks. Every place of the templates where a name or source text reaches a page is listed in
+Escape.lean ("The sinks of the HTML templates") and has a theorem here: page title
+(`C18_sink_title`), breadcrumb link and label (`C18_sink_breadcrumb`, `C18_breadcrumb_href`), active
+breadcrumb (`C18_sink_current`), row link and row name of the index pages (`C18_sink_row`,
+`C18_sink_row_dir`, `C18_sink_row_file`), source line (`C18_sink_pre`). Each says: a tokenizer
+reads back exactly the name (as character data / as the attribute value) and continues at the
+template's own closing markup, and the markup skeleton of the fragment (its `<` `>` `"` `'`, in
+order) is that of the template with an empty name – so no element, attribute or script can be
+added.
+
+Links. The breadcrumb link of a file page is escaped since /repo ffd66c7; the row links without a
+prefix are explicitly relative since /repo 8e4c27e (`C18_row_href_relative`). One `…_partial`
+remains, about configuration rather than names: with `--abs-link-prefix P` the directory rows are
+`P~item` without a separator (index.html 23), so "a name cannot change the scheme of a prefixed
+link" needs `P` to contain a `/` or a `:`; refuted for `P = java`, directory `script:alert(1)`
+(`C18_prefixed_links_scheme_false`). The same missing separator makes the directory links of the
+top-level index wrong for every prefix that does not end in `/` (`C18_dir_row_prefix_no_separator`:
+`http://h` + `src` = `http://hsrc/index.html`, whereas the breadcrumb of the pages below uses
+`http://h/src/index.html`) – a broken link, not an injection: reported under C03/C18 as an
+observation.
+
 What the theorems do not cover (checked at run time by harness/c18 on whole reports): that the
 writers of cobertura.rs / output.rs / html.rs route every name through these routines and that
-the fixed text around the names is what the templates say.
+the fixed text around the names is what the templates say (the sinks are compared with the page
+bytes and, decoded by Python's html.parser, with the input names).
 -/
 import GrcovModel.Lemmas.Escape
+import GrcovModel.Lemmas.EscapeAgree
 import GrcovModel.Props.C18CobBytes
+import GrcovModel.Props.C18JsonBytes
 namespace Grcov.Props.C18
 open Grcov.Escape
 
 /-! ### Cobertura (quick-xml) -/
 
-/-- Resolving the entities of an escaped attribute value gives back exactly the name. -/
+/-- Resolving the entities of an escaped attribute value gives back exactly the name (all byte
+strings; `unescapeEnt` is the pure entity resolver, quick-xml's `unescape`). -/
 theorem C18_xml_attr_roundtrip (s : Bytes) : unescapeEnt (xmlAttr s) = some s :=
   unescapeEnt_escapeWith pieceOk_xmlAttr s
 
-/-- An escaped attribute value contains no raw `<`, `>`, `"` or `'`. -/
+/-- An escaped attribute value contains no raw `<`, `>`, `"` or `'` (all byte strings). -/
 theorem C18_xml_attr_no_meta (s : Bytes) :
     60 ∉ xmlAttr s ∧ 62 ∉ xmlAttr s ∧ 34 ∉ xmlAttr s ∧ 39 ∉ xmlAttr s :=
   ⟨not_mem_escapeWith _ 60 (xmlAttrTab_no 60 (by simp)) s,
@@ -46,19 +78,65 @@ theorem C18_xml_attr_amp (s : Bytes) (i : Nat) (h : (xmlAttr s)[i]? = some 38) :
     ∃ e ∈ xmlEntities, e <+: (xmlAttr s).drop i :=
   ampOk_spec xmlEntities _ (ampOk_escapeWith xmlEntities xmlAttrTab ampOk_xmlAttrTab s) i h
 
-/-- An XML parser that starts reading after the opening quote of `name="…"` reports exactly the
-name and continues exactly at what the writer put after the closing quote: a hostile name cannot
-end the attribute, start another attribute or open an element. (Names without TAB/LF/CR: the
-property's quantifier.) -/
-theorem C18_xml_attr_scan (s rest : Bytes) (h : NoTabNl s) :
+/-- For every printable name (the property's quantifier), however hostile: a conforming XML
+parser that starts reading after the opening quote of `name="…"` reports exactly the name and
+continues exactly at what the writer put after the closing quote – the name cannot end the
+attribute, start another attribute or open an element, and the document stays well-formed. -/
+theorem C18_xml_attr_scan (s rest : Bytes) (h : printable s = true) :
     scanAttr (xmlAttr s ++ 34 :: rest) = some (s, rest) :=
   scanAttr_xmlAttr s rest h
 
-/-- The `<source>` text: read back exactly, up to the `<` of the closing tag, and it contains no
-raw `>` (so no `]]>`). -/
-theorem C18_xml_text_scan (s rest : Bytes) :
+/-- The `<source>` text, for every printable string and also with TAB and LF (`textSafe`): read
+back exactly, up to the `<` of the closing tag, and it contains no raw `>` (so no `]]>`). -/
+theorem C18_xml_text_scan (s rest : Bytes) (h : textSafe s = true) :
     scanXmlText (xmlText s ++ 60 :: rest) = some (s, rest) ∧ 62 ∉ xmlText s :=
-  ⟨scanXmlText_xmlText s rest, not_mem_escapeWith _ 62 (xmlAttrTab_no 62 (by simp)) s⟩
+  ⟨scanXmlText_xmlText s rest h, not_mem_escapeWith _ 62 (xmlAttrTab_no 62 (by simp)) s⟩
+
+/-- … in particular for every printable string. -/
+theorem C18_xml_text_scan_printable (s rest : Bytes) (h : printable s = true) :
+    scanXmlText (xmlText s ++ 60 :: rest) = some (s, rest) :=
+  scanXmlText_xmlText s rest (printable_textSafe h)
+
+/-- The readers and guards used here are those of the byte-level Cobertura model, which is tied
+to expat on whole reports (`Writers/CobBytes.lean`). -/
+theorem C18_readers_agree :
+    (∀ bs, scanAttr bs = Grcov.Writers.CobBytes.readAttrValue bs) ∧
+    (∀ bs, Grcov.Writers.CobBytes.readText bs
+      = (scanXmlText bs).map fun vr => (Grcov.Writers.CobBytes.BXml.text vr.1, 60 :: vr.2)) ∧
+    (∀ v, printable v = Grcov.Writers.CobBytes.attrOk v) ∧
+    (∀ v, textSafe v = Grcov.Writers.CobBytes.textOk v) :=
+  ⟨scanAttr_eq_readAttrValue, readText_eq_scanXmlText, printable_eq_attrOk, textSafe_eq_textOk⟩
+
+/-- The unguarded statement: every byte string written as an attribute value / as character data
+is read back unchanged. -/
+def C18_xml_scan_any_stmt : Prop :=
+  ∀ s rest : Bytes, scanAttr (xmlAttr s ++ 34 :: rest) = some (s, rest) ∧
+    scanXmlText (xmlText s ++ 60 :: rest) = some (s, rest)
+
+/-- It is false: the guards are needed (control characters are outside the property's
+quantifier, and quick-xml's `escape` copies them). -/
+theorem C18_xml_scan_any_false : ¬ C18_xml_scan_any_stmt := by
+  intro h
+  have := (h [97, 9, 98] []).1
+  revert this
+  decide
+
+/-- What exactly happens outside the guard, as closed witnesses on the executable model:
+in an attribute value TAB, LF, CR and CR LF are each read back as one blank; a C0 control (0x01)
+or U+FFFE makes the document ill-formed; in character data CR and CR LF are read back as LF (so
+`textSafe` excludes CR but not LF / TAB), 0x01 is ill-formed. -/
+theorem C18_xml_controls_outside :
+    scanAttr (xmlAttr [97, 9, 98] ++ [34]) = some ([97, 32, 98], []) ∧
+    scanAttr (xmlAttr [97, 10, 98] ++ [34]) = some ([97, 32, 98], []) ∧
+    scanAttr (xmlAttr [97, 13, 98] ++ [34]) = some ([97, 32, 98], []) ∧
+    scanAttr (xmlAttr [97, 13, 10, 98] ++ [34]) = some ([97, 32, 98], []) ∧
+    scanAttr (xmlAttr [97, 1, 98] ++ [34]) = none ∧
+    scanAttr (xmlAttr [239, 191, 190] ++ [34]) = none ∧
+    scanXmlText (xmlText [97, 13, 98] ++ [60]) = some ([97, 10, 98], []) ∧
+    scanXmlText (xmlText [97, 13, 10, 98] ++ [60]) = some ([97, 10, 98], []) ∧
+    scanXmlText (xmlText [97, 9, 10, 98] ++ [60]) = some ([97, 9, 10, 98], []) ∧
+    scanXmlText (xmlText [97, 1, 98] ++ [60]) = none := by
+  decide
 
 /-! ### Coveralls, covdir, ActiveData-ETL, coverage.json (serde_json) -/
 
@@ -68,7 +146,8 @@ theorem C18_json_roundtrip (s : Bytes) : jsonUnescape (jsonStr s) = some s :=
   jsonUnescape_jsonStr s
 
 /-- A JSON parser that starts after the opening quote reports exactly the name and continues
-after the closing quote the writer emitted: a name cannot end the string, add a key or a record. -/
+after the closing quote the writer emitted: a name cannot end the string, add a key or a record
+(every byte string: serde_json escapes the control characters, RFC 8259 readers reject raw ones). -/
 theorem C18_json_scan (s rest : Bytes) :
     scanJson [] (jsonStr s ++ 34 :: rest) = some (s, rest) := by
   simpa using scanJson_jsonStr s [] rest
@@ -80,11 +159,12 @@ theorem C18_json_no_control (s : Bytes) : ∀ y ∈ jsonStr s, 32 ≤ y :=
 
 /-! ### HTML pages (Tera auto-escape) -/
 
-/-- Resolving the character references of an escaped string gives back exactly the text. -/
+/-- Resolving the character references of an escaped string gives back exactly the text (all
+byte strings). -/
 theorem C18_html_roundtrip (s : Bytes) : unescapeEnt (html s) = some s :=
   unescapeEnt_escapeWith pieceOk_html s
 
-/-- Escaped text contains no raw `<`, `>`, `"`, `'` or `/`. -/
+/-- Escaped text contains no raw `<`, `>`, `"`, `'` or `/` (all byte strings). -/
 theorem C18_html_no_meta (s : Bytes) :
     60 ∉ html s ∧ 62 ∉ html s ∧ 34 ∉ html s ∧ 39 ∉ html s ∧ 47 ∉ html s :=
   ⟨not_mem_escapeWith _ 60 (htmlTab_no 60 (by simp)) s,
@@ -98,43 +178,115 @@ theorem C18_html_amp (s : Bytes) (i : Nat) (h : (html s)[i]? = some 38) :
     ∃ e ∈ htmlEntities, e <+: (html s).drop i :=
   ampOk_spec htmlEntities _ (ampOk_escapeWith htmlEntities htmlTab ampOk_htmlTab s) i h
 
-/-- Names and source lines in element content (`<pre>{{ item.2 }}</pre>`, `<a …>{{ name }}</a>`,
-`<title>`): the tokenizer reports exactly the text and the next tag is the template's own. -/
-theorem C18_html_text_scan (s rest : Bytes) :
+/-- Names and source lines in element content, for every name without control characters: the
+tokenizer reports exactly the text and the next tag is the template's own. -/
+theorem C18_html_text_scan (s rest : Bytes) (h : noCtl s = true) :
     scanHtmlText (html s ++ 60 :: rest) = some (s, rest) :=
-  scanHtmlText_html s rest
+  scanHtmlText_html s rest (noCtl_no13 h)
 
 /-- Names inside a double-quoted attribute (`href="{{ url }}"`): the value is exactly the name
 and the attribute ends at the template's own quote. -/
-theorem C18_html_attr_scan (s rest : Bytes) :
+theorem C18_html_attr_scan (s rest : Bytes) (h : noCtl s = true) :
     scanHtmlAttr (html s ++ 34 :: rest) = some (s, rest) :=
-  scanHtmlAttr_html s rest
+  scanHtmlAttr_html s rest (noCtl_no13 h)
 
-/-! ### the breadcrumb of a file page (macros.html 15-17) -/
+/-- the guard is implied by the property's quantifier -/
+theorem C18_printable_noCtl (s : Bytes) (h : printable s = true) : noCtl s = true :=
+  printable_noCtl h
 
-/-- Whatever `--abs-link-prefix` is (absent or any string) and whatever the parent directory is
-called, a parser reads back exactly the link that `gen_html` computed and the attribute ends at
-the template's own quote. -/
-theorem C18_breadcrumb_href (absPrefix : Option Bytes) (parent rest : Bytes) :
-    scanHtmlAttr (html (fileParentLink absPrefix parent) ++ 34 :: rest)
-      = some (fileParentLink absPrefix parent, rest) :=
-  scanHtmlAttr_html _ rest
+/-- … and it is needed: Tera copies a CR, an HTML tokenizer reads it (and CR LF) as LF. -/
+theorem C18_html_cr_outside :
+    scanHtmlText (html [97, 13, 98] ++ [60]) = some ([97, 10, 98], []) ∧
+    scanHtmlAttr (html [97, 13, 10, 98] ++ [34]) = some ([97, 10, 98], []) := by
+  decide
 
-/-- The whole breadcrumb item `<li><a href="LINK">LABEL</a></li>`, for every link and label, is
-tokenized as the template wrote it: one `a` element whose `href` is exactly the link and whose
-text is exactly the label, followed by the template's `</a></li>`. -/
-theorem C18_breadcrumb_item (link label rest : Bytes) :
-    ∃ tail, breadcrumbItem link label ++ rest
+/-! ### the sinks of the templates (Escape.lean, "The sinks of the HTML templates") -/
+
+/-- `<title>Grcov report - {{ current }} </title>` (file.html 4, index.html 4): after the
+template's `<title>` the tokenizer reads the text `Grcov report - NAME ` – exactly the name
+between the template's words – and continues at the template's `</title>`; the markup skeleton
+of the fragment does not depend on the name. -/
+theorem C18_sink_title (current rest : Bytes) (h : noCtl current = true) :
+    (∃ tail, titleFrag current ++ rest = titleOpen ++ tail ∧
+      scanHtmlText tail = some (titleLead ++ current ++ [32], titleClose ++ rest)) ∧
+    metaOf (titleFrag current) = metaOf (titleFrag []) :=
+  ⟨titleFrag_scan current rest h, titleFrag_meta current⟩
+
+/-- `<li class="is-active"><a href="#">{{ current }}</a></li>` (macros.html 18): the link text
+is exactly the name, followed by the template's `</a></li>`. -/
+theorem C18_sink_current (current rest : Bytes) (h : noCtl current = true) :
+    (∃ tail, currentItem current ++ rest = currentOpen ++ tail ∧
+      scanHtmlText tail = some (current, aLiClose ++ rest)) ∧
+    metaOf (currentItem current) = metaOf (currentItem []) :=
+  ⟨currentItem_scan current rest h, currentItem_meta current⟩
+
+/-- `<li><a href="{{ parent.0 }}">{{ parent.1 }}</a></li>` (macros.html 16), for every link and
+label: one `a` element whose `href` is exactly the link and whose text is exactly the label,
+followed by the template's `</a></li>`; the skeleton does not depend on either. -/
+theorem C18_sink_breadcrumb (link label rest : Bytes) (hl : noCtl link = true)
+    (hb : noCtl label = true) :
+    (∃ tail, breadcrumbItem link label ++ rest
         = [60, 108, 105, 62, 60, 97, 32, 104, 114, 101, 102, 61, 34] ++ tail ∧
       scanHtmlAttr tail = some (link,
         62 :: (html label ++ 60 :: ([47, 97, 62, 60, 47, 108, 105, 62] ++ rest))) ∧
       scanHtmlText (html label ++ 60 :: ([47, 97, 62, 60, 47, 108, 105, 62] ++ rest))
-        = some (label, [47, 97, 62, 60, 47, 108, 105, 62] ++ rest) := by
-  refine ⟨html link ++ 34 :: 62 :: (html label ++ 60 ::
-      ([47, 97, 62, 60, 47, 108, 105, 62] ++ rest)), ?_, ?_, ?_⟩
+        = some (label, [47, 97, 62, 60, 47, 108, 105, 62] ++ rest)) ∧
+    metaOf (breadcrumbItem link label) = metaOf (breadcrumbItem [] []) := by
+  refine ⟨⟨html link ++ 34 :: 62 :: (html label ++ 60 ::
+      ([47, 97, 62, 60, 47, 108, 105, 62] ++ rest)), ?_, ?_, ?_⟩, breadcrumbItem_meta link label⟩
   · simp [breadcrumbItem]
-  · exact scanHtmlAttr_html link _
-  · exact scanHtmlText_html label _
+  · exact scanHtmlAttr_html link _ (noCtl_no13 hl)
+  · exact scanHtmlText_html label _ (noCtl_no13 hb)
+
+/-- Whatever `--abs-link-prefix` is (absent or any string without control characters) and
+whatever the parent directory is called, the links `gen_html` computes for the breadcrumb are
+read back exactly and the attribute ends at the template's own quote. -/
+theorem C18_breadcrumb_href (absPrefix : Option Bytes) (parent rest : Bytes) (depth : Nat)
+    (hp : ∀ p, absPrefix = some p → noCtl p = true) (hpar : noCtl parent = true) :
+    scanHtmlAttr (html (fileParentLink absPrefix parent) ++ 34 :: rest)
+      = some (fileParentLink absPrefix parent, rest) ∧
+    scanHtmlAttr (html (fileTopLink absPrefix depth) ++ 34 :: rest)
+      = some (fileTopLink absPrefix depth, rest) :=
+  ⟨scanHtmlAttr_html _ rest (noCtl_no13 (noCtl_fileParentLink absPrefix parent hp hpar)),
+   scanHtmlAttr_html _ rest (noCtl_no13 (noCtl_fileTopLink absPrefix depth hp))⟩
+
+/-- `<th><a href="{{ url }}">{{ name }}</a></th>` (`stats_line`, macros.html 40), for every link
+and name: the `href` is exactly the link, the text exactly the name, then the template's
+`</a></th>`; the skeleton does not depend on either. -/
+theorem C18_sink_row (url name rest : Bytes) (hu : noCtl url = true) (hn : noCtl name = true) :
+    (∃ tail, rowLink url name ++ rest = rowOpen ++ tail ∧
+      scanHtmlAttr tail = some (url, 62 :: (html name ++ 60 :: (aThClose ++ rest))) ∧
+      scanHtmlText (html name ++ 60 :: (aThClose ++ rest)) = some (name, aThClose ++ rest)) ∧
+    metaOf (rowLink url name) = metaOf (rowLink [] []) :=
+  ⟨rowLink_scan url name rest hu hn, rowLink_meta url name⟩
+
+/-- … with the link of a directory row of the top-level index (index.html 23/25), for every
+prefix option and every directory name. -/
+theorem C18_sink_row_dir (absPrefix : Option Bytes) (item rest : Bytes)
+    (hp : ∀ p, absPrefix = some p → noCtl p = true) (hi : noCtl item = true) :
+    ∃ tail, rowLink (dirRowUrl absPrefix item) item ++ rest = rowOpen ++ tail ∧
+      scanHtmlAttr tail
+        = some (dirRowUrl absPrefix item, 62 :: (html item ++ 60 :: (aThClose ++ rest))) ∧
+      scanHtmlText (html item ++ 60 :: (aThClose ++ rest)) = some (item, aThClose ++ rest) :=
+  rowLink_scan _ item rest (noCtl_dirRowUrl absPrefix item hp hi) hi
+
+/-- … and of a file row of a directory index (index.html 31/33). -/
+theorem C18_sink_row_file (dirPrefix : Option Bytes) (item rest : Bytes)
+    (hp : ∀ p, dirPrefix = some p → noCtl p = true) (hi : noCtl item = true) :
+    ∃ tail, rowLink (fileRowUrl dirPrefix item) item ++ rest = rowOpen ++ tail ∧
+      scanHtmlAttr tail
+        = some (fileRowUrl dirPrefix item, 62 :: (html item ++ 60 :: (aThClose ++ rest))) ∧
+      scanHtmlText (html item ++ 60 :: (aThClose ++ rest)) = some (item, aThClose ++ rest) :=
+  rowLink_scan _ item rest (noCtl_fileRowUrl dirPrefix item hp hi) hi
+
+/-- `<pre class="has-background-… py-0 px-2">{{ item.2 }}</pre>` (file.html 40), for every source
+line: the text of the `pre` element is exactly the line, followed by the template's `</pre>`; the
+skeleton does not depend on the line. -/
+theorem C18_sink_pre (cls text rest : Bytes) (h : noCtl text = true) :
+    (∃ tail, preLine cls text ++ rest = preOpen1 ++ cls ++ preOpen2 ++ tail ∧
+      scanHtmlText tail = some (text, preClose ++ rest)) ∧
+    metaOf (preLine cls text) = metaOf (preLine cls []) :=
+  ⟨preLine_scan cls text rest h, preLine_meta cls text⟩
 
 /-! ### links built from names -/
 
@@ -186,6 +338,26 @@ theorem C18_prefixed_links_scheme_partial (p parent item : Bytes) (h : 47 ∈ p 
   rw [hasScheme_fileRowUrl_some, hz]
   exact hasScheme_append_of_mem p z h
 
+/-- Observation (not an injection; a broken link – C03's subject as much as C18's): with
+`--abs-link-prefix P` the directory rows of the top-level index are `P~item~"/index.html"` with
+nothing between prefix and directory (index.html 23), while the pages below are linked as
+`P/<dir>/…` everywhere else (`fileParentLink`, `fileRowUrl`). For every prefix that does not end in
+`/` the two differ: the row does not lead to the page the breadcrumb of that page names. -/
+theorem C18_dir_row_prefix_no_separator (p item : Bytes) (hp : p ≠ []) (hl : p.getLast? ≠ some 47)
+    (hi : item.head? ≠ some 47) (hne : item ≠ []) (hil : item.getLast? ≠ some 47) :
+    dirRowUrl (some p) item = p ++ item ++ [47] ++ indexHtml ∧
+    fileParentLink (some p) item = p ++ [47] ++ item ++ [47] ++ indexHtml ∧
+    dirRowUrl (some p) item ≠ fileParentLink (some p) item :=
+  dirRow_no_separator p item hp hl hi hne hil
+
+/-- the witness of the observation: `http://h` + `src` gives `http://hsrc/index.html` -/
+example : dirRowUrl (some [104, 116, 116, 112, 58, 47, 47, 104]) [115, 114, 99]
+    = [104, 116, 116, 112, 58, 47, 47, 104, 115, 114, 99, 47, 105, 110, 100, 101, 120, 46, 104,
+       116, 109, 108] ∧
+    fileParentLink (some [104, 116, 116, 112, 58, 47, 47, 104]) [115, 114, 99]
+    = [104, 116, 116, 112, 58, 47, 47, 104, 47, 115, 114, 99, 47, 105, 110, 100, 101, 120, 46, 104,
+       116, 109, 108] := by decide
+
 /-! ### non-vacuity: concrete hostile inputs through the executable model -/
 
 /-- `a"/><x y='1'>&amp;]]>é`  as a cobertura attribute -/
@@ -193,9 +365,6 @@ example : scanAttr (xmlAttr [97, 34, 47, 62, 60, 120, 32, 121, 61, 39, 49, 39, 6
       59, 93, 93, 62, 195, 169] ++ 34 :: [32, 122, 61, 34])
     = some ([97, 34, 47, 62, 60, 120, 32, 121, 61, 39, 49, 39, 62, 38, 97, 109, 112, 59, 93, 93, 62,
       195, 169], [32, 122, 61, 34]) := by decide
-
-/-- the guard of `C18_xml_attr_scan` is needed: a line feed in a name comes back as a space -/
-example : scanAttr (xmlAttr [97, 10, 98] ++ [34]) = some ([97, 32, 98], []) := by decide
 
 /-- `"},{"name":"x` + LF + backslash as a JSON string -/
 example : scanJson [] (jsonStr [34, 125, 44, 123, 34, 110, 97, 109, 101, 34, 58, 34, 120, 10, 92]
@@ -225,5 +394,33 @@ example : dirRowUrl none [106, 97, 118, 97, 115, 99, 114, 105, 112, 116, 58, 97,
 `http://h` has a scheme, `/srv/www` has none, and neither can be changed by `script:x` -/
 example : hasScheme (dirRowUrl (some [104, 116, 116, 112, 58, 47, 47, 104]) [115, 99, 58, 120]) = true
     ∧ hasScheme (dirRowUrl (some [47, 115, 114, 118]) [115, 99, 58, 120]) = false := by decide
+
+/-- the guards are satisfiable by hostile names: `a"/><x y='1'>&amp;]]>é` is `printable`, and so
+is it with a TAB for `textSafe` -/
+example : printable [97, 34, 47, 62, 60, 120, 32, 121, 61, 39, 49, 39, 62, 38, 97, 109, 112,
+      59, 93, 93, 62, 195, 169] = true ∧ textSafe [9, 60, 93, 93, 62, 10] = true ∧
+    printable [97, 9] = false ∧ textSafe [97, 13] = false := by decide
+
+/-- the title sink on the file name `</title><script>x` -/
+example : scanHtmlText ((titleFrag [60, 47, 116, 105, 116, 108, 101, 62, 60, 115, 99, 114, 105, 112,
+      116, 62, 120]).drop 7)
+    = some (titleLead ++ [60, 47, 116, 105, 116, 108, 101, 62, 60, 115, 99, 114, 105, 112, 116, 62,
+      120] ++ [32], titleClose) := by decide
+
+/-- the row sink on the directory `x"><b id=pwn>` with prefix `http://h/`: href and text are read
+back exactly, and the skeleton is the template's `<><"">` … -/
+example : scanHtmlAttr ((rowLink (dirRowUrl (some [104, 116, 116, 112, 58, 47, 47, 104, 47])
+        [120, 34, 62, 60, 98, 32, 105, 100, 61, 112, 119, 110, 62])
+        [120, 34, 62, 60, 98, 32, 105, 100, 61, 112, 119, 110, 62]).drop 13)
+    = some ([104, 116, 116, 112, 58, 47, 47, 104, 47, 120, 34, 62, 60, 98, 32, 105, 100, 61, 112,
+        119, 110, 62, 47, 105, 110, 100, 101, 120, 46, 104, 116, 109, 108],
+      62 :: (html [120, 34, 62, 60, 98, 32, 105, 100, 61, 112, 119, 110, 62] ++ 60 :: aThClose)) ∧
+    metaOf (rowLink [120, 34, 62] [60, 39]) = [60, 62, 60, 34, 34, 62, 60, 62, 60, 62] := by decide
+
+/-- the source-line sink on `</pre><script>alert('x')</script>` -/
+example : scanHtmlText ((preLine [119, 104, 105, 116, 101] [60, 47, 112, 114, 101, 62, 60, 115, 99,
+      114, 105, 112, 116, 62, 39]).drop (27 + 5 + 12))
+    = some ([60, 47, 112, 114, 101, 62, 60, 115, 99, 114, 105, 112, 116, 62, 39], preClose) := by
+  decide
 
 end Grcov.Props.C18
